@@ -16,7 +16,7 @@ package mempool
 //@   requires size >= 0
 //@   ensures nonnil: result != nil                                              // prop C20 C11
 //@   ensures len: len(*result) == size && cap(*result) >= size                  // prop C20
-//@   ensures handle: !old(liveP[result]) && liveP[result]                       // prop C11 C20
+//@   ensures handle: fresh(result) && !old(liveP[result]) && liveP[result]      // prop C11 C20
 //@   ensures freshmem: fresh(*result)                                           // prop C20
 //@   ensures others: forall q int :: q != result ==> liveP[q] == old(liveP[q])  // prop C20 C11
 //@   assigns *result, liveP, allocates
@@ -31,10 +31,10 @@ package mempool
 //@   requires buf != nil && liveP[buf]
 //@   ensures nonnil: result != nil                                              // prop C20 C11
 //@   ensures len: len(*result) == old(len(*buf)) + len(more)                    // prop C20
-//@   ensures keep: forall j int :: 0 <= j && j < old(len(*buf)) ==> (*result)[j] == old((*buf)[j])      // prop C20
-//@   ensures more: forall j int :: 0 <= j && j < len(more) ==> (*result)[old(len(*buf)) + j] == old(more[j])  // prop C20
+//@   ensures keep: forall p int :: off(*result) <= p && p < off(*result) + old(len(*buf)) ==> mem(*result, p) == memold(*buf, p - off(*result) + old(off(*buf)))  // prop C20
+//@   ensures more: forall p int :: off(*result) + old(len(*buf)) <= p && p < off(*result) + len(*result) ==> mem(*result, p) == memold(more, p - off(*result) - old(len(*buf)) + off(more))  // prop C20
 //@   ensures mem: base(*result) == old(base(*buf)) || fresh(*result)            // prop C20
-//@   ensures handle: liveP[result] && (result != buf ==> !liveP[buf] && !old(liveP[result]))  // prop C11 C20
+//@   ensures handle: liveP[result] && (result != buf ==> !liveP[buf] && !old(liveP[result]) && fresh(result))  // prop C11 C20
 //@   ensures others: forall q int :: q != buf && q != result ==> liveP[q] == old(liveP[q])    // prop C11 C20
 //@   assigns *result, elems(*result), liveP, allocates
 
@@ -42,10 +42,10 @@ package mempool
 //@   requires buf != nil && liveP[buf]
 //@   ensures nonnil: result != nil                                              // prop C20 C11
 //@   ensures len: len(*result) == old(len(*buf)) + len(more)                    // prop C20
-//@   ensures keep: forall j int :: 0 <= j && j < old(len(*buf)) ==> (*result)[j] == old((*buf)[j])      // prop C20
-//@   ensures more: forall j int :: 0 <= j && j < len(more) ==> (*result)[old(len(*buf)) + j] == more[j]  // prop C20
+//@   ensures keep: forall p int :: off(*result) <= p && p < off(*result) + old(len(*buf)) ==> mem(*result, p) == memold(*buf, p - off(*result) + old(off(*buf)))  // prop C20
+//@   ensures more: forall j int :: 0 <= j && j < len(more) ==> mem(*result, off(*result) + old(len(*buf)) + j) == more[j]  // prop C20
 //@   ensures mem: base(*result) == old(base(*buf)) || fresh(*result)            // prop C20
-//@   ensures handle: liveP[result] && (result != buf ==> !liveP[buf] && !old(liveP[result]))  // prop C11 C20
+//@   ensures handle: liveP[result] && (result != buf ==> !liveP[buf] && !old(liveP[result]) && fresh(result))  // prop C11 C20
 //@   ensures others: forall q int :: q != buf && q != result ==> liveP[q] == old(liveP[q])    // prop C11 C20
 //@   assigns *result, elems(*result), liveP, allocates
 
@@ -53,9 +53,9 @@ package mempool
 //@   requires buf != nil && liveP[buf] && size >= 0
 //@   ensures nonnil: result != nil                                              // prop C20 C11
 //@   ensures len: len(*result) == size                                          // prop C20
-//@   ensures keep: forall j int :: 0 <= j && j < old(len(*buf)) && j < size ==> (*result)[j] == old((*buf)[j])  // prop C20
+//@   ensures keep: forall p int :: off(*result) <= p && p < off(*result) + old(len(*buf)) && p < off(*result) + size ==> mem(*result, p) == memold(*buf, p - off(*result) + old(off(*buf)))  // prop C20
 //@   ensures mem: base(*result) == old(base(*buf)) || fresh(*result)            // prop C20
-//@   ensures handle: liveP[result] && (result != buf ==> !liveP[buf] && !old(liveP[result]))  // prop C11 C20
+//@   ensures handle: liveP[result] && (result != buf ==> !liveP[buf] && !old(liveP[result]) && fresh(result))  // prop C11 C20
 //@   ensures others: forall q int :: q != buf && q != result ==> liveP[q] == old(liveP[q])    // prop C11 C20
 //@   assigns *result, elems(*result), liveP, allocates
 
